@@ -52,6 +52,7 @@ func (e *Exec) enterLoop(li *loopInfo, phiVals map[ssa.Value]Val, st *State) {
 		}
 	}
 	// 2. havoc
+	li.assumeStart = len(e.root().assumes)
 	li.modset = e.loopModset(li)
 	hst := st.Clone()
 	if li.modset["*"] {
@@ -176,6 +177,8 @@ func (e *Exec) checkInvariants(li *loopInfo, from *ssa.BasicBlock, cond *Term) {
 	}
 	saveReach, saveState := e.curReach, e.curState
 	e.curReach = cond
+	e.oblLoopFrom = li.assumeStart
+	defer func() { e.oblLoopFrom = 0 }()
 	vals := map[ssa.Value]Val{}
 	for _, in := range li.header.Instrs {
 		phi, ok := in.(*ssa.Phi)
